@@ -135,13 +135,13 @@ def correspond(ctx, n=None):
             matrix[f'{be}/seed{hs}'] = {'ok': good, 'failed': bad}
     # ---- second stream: wire bytes from the INDEPENDENT reference encoder (Ledger.ref_tx evaluated in Coq): blind spots of
     #      bytes produced by pycardano itself (a symmetric change of the encoder) do not apply here
-    nref = ctx.n(160, 4000)
+    nref = ctx.n(100, 4000)
     rtx, wires = ref_wire(ctx, nref)
     rcases = [{'mode': 'c03raw', 'tx': w} for w in wires]
     ref_matrix = {}
     rbase = None
     for be, hs in ([('py', '0'), ('py', '1'), ('c', '0')] if ctx.quick else [(b, h) for b in ('py', 'c') for h in seeds]):
-        sub = rcases if (be, hs) == ('py', '0') or not ctx.quick else rcases[:60]
+        sub = rcases if (be, hs) == ('py', '0') or not ctx.quick else rcases[:40]
         res = C.run_impl('codec_driver', {'cases': sub, 'opaque': []}, backend=be, hashseed=hs)
         if (be, hs) == ('py', '0'):
             rbase = res
